@@ -12,6 +12,7 @@ package interp
 import (
 	"fmt"
 	"go/types"
+	"os"
 	"sync"
 
 	"golang.org/x/tools/go/ssa"
@@ -71,6 +72,9 @@ func (i *interpreter) spawn(instr *ssa.Go, fn value, args []value) {
 		defer func() {
 			r := recover()
 			g.done = true
+			if debugSched {
+				fmt.Fprintf(os.Stderr, "sched: goroutine %s exits with %v\n", g.name, r)
+			}
 			if _, isKill := r.(killPanic); isKill {
 				return
 			}
@@ -155,6 +159,9 @@ func (s *scheduler) handoff(g *goroutine, exiting bool) {
 				panic(pathAbort{"deadlock: all goroutines blocked (" + s.describe() + ")"})
 			}
 		}
+		if debugSched {
+			fmt.Fprintf(os.Stderr, "sched: %s(%s) -> %s(%s) exiting=%v\n", g.name, g.why, next.name, next.why, exiting)
+		}
 		s.cur = next
 		next.wake <- 1
 		if exiting {
@@ -164,6 +171,8 @@ func (s *scheduler) handoff(g *goroutine, exiting bool) {
 		return
 	}
 }
+
+var debugSched = os.Getenv("VERIF_DEBUG_SCHED") != ""
 
 func (s *scheduler) sleep(g *goroutine) {
 	if <-g.wake == 0 {
@@ -301,7 +310,9 @@ func (c *mchan) canRecv() bool {
 }
 
 func (c *mchan) canSend() bool {
-	return c.closed || len(c.buf) < c.capacity || c.recvWait > 0
+	// room in the buffer, or a waiting receiver that is not yet served (each
+	// waiting receiver takes exactly one item when it is scheduled)
+	return c.closed || len(c.buf) < c.capacity+c.recvWait
 }
 
 func (i *interpreter) chanSend(ch value, v value) {
@@ -312,7 +323,7 @@ func (i *interpreter) chanSend(ch value, v value) {
 	if c.closed {
 		panic(targetPanic{iface{i.eng.runtimeErrorString, "send on closed channel"}})
 	}
-	if len(c.buf) < c.capacity {
+	if len(c.buf) < c.capacity+c.recvWait {
 		c.buf = append(c.buf, v)
 		return
 	}
